@@ -8,7 +8,7 @@ solver at rest and every Solution obtained earlier is compared with the solo run
 same own progress."""
 import numpy as np
 
-from mc.common import Result, pmap, quiet
+from mc.common import Result, pmap, pmap_fresh, quiet
 from mc import sched
 from mc.env import box
 
@@ -147,6 +147,39 @@ def solo(spec, ops):
     return out
 
 
+def _solo_job(job):
+    spec, ops = job
+    return solo(spec, ops)
+
+
+def _key(spec, ops):
+    import json
+    return json.dumps([spec, ops], sort_keys=True)
+
+
+def fresh_solos(pairs):
+    """The reference of the property is the solver running ALONE: every distinct (spec, ops) is executed in a
+    process of its own (spawned, one job per process), so nothing an earlier solver left behind in the
+    interpreter can leak into the reference."""
+    import multiprocessing as mp
+    uniq = {}
+    for spec, ops in pairs:
+        uniq.setdefault(_key(spec, ops), (spec, ops))
+    keys = list(uniq)
+    if not keys:
+        return {}
+    with mp.get_context("spawn").Pool(min(16, len(keys)), maxtasksperchild=1) as pool:
+        vals = pool.map(_solo_job, [uniq[k] for k in keys], 1)
+    return dict(zip(keys, vals))
+
+
+def refs_for(task):
+    if task.get("refs") is not None:
+        return task["refs"]
+    table = fresh_solos([(sp, task["ops"]) for sp in task["specs"]])
+    return [table[_key(sp, task["ops"])] for sp in task["specs"]]
+
+
 def describe_diff(a, b):
     if a is None or b is None:
         return f"{a} vs {b}"
@@ -165,13 +198,15 @@ def describe_diff(a, b):
 
 def merge_task(task):
     specs, ops, first = task["specs"], task["ops"], task["first"]
-    refs = [solo(sp, ops) for sp in specs]
+    refs = refs_for(task)
     n = len(specs)
     viol = []
     count = 0
     outcomes = set()
     alternations = 0
     for tail in sched.merges([len(ops) - (1 if i == first else 0) for i in range(n)]):
+        if task.get("upto") is not None and count > task["upto"]:
+            break
         order = (first,) + tail
         env = {}
         actors = [Actor(sp, env=env) for sp in specs]
@@ -189,7 +224,7 @@ def merge_task(task):
         outcomes.add(repr([a.state()[1] for a in actors]))
         if bad:
             step, j, why = bad
-            viol.append(dict(driver="merge", specs=specs, ops=ops, order=list(order[:step + 1]),
+            viol.append(dict(driver="merge", specs=specs, ops=ops, order=list(order[:step + 1]), first=first, upto=count - 1,
                              message=f"after step {step + 1} of interleaving {list(order[:step + 1])} (ops {ops}) solver {j} "
                                      f"({specs[j]['f']}) differs from its solo run at the same progress: {why}", sig={}))
             if len(viol) > 5:
@@ -199,7 +234,12 @@ def merge_task(task):
 
 def replay_merge(rec):
     specs, ops, order = rec["specs"], rec["ops"], rec["order"]
-    refs = [solo(sp, ops) for sp in specs]
+    refs = refs_for(rec)
+    if rec.get("upto") is not None:
+        # the finding may need what the earlier interleavings of the same process left behind: re-execute them all
+        # (each task of the exploration runs in a process of its own, so this is the complete history)
+        n, a, o, viol = merge_task(dict(specs=specs, ops=ops, first=rec["first"], refs=refs, upto=rec["upto"]))
+        return [v["message"] for v in viol if v["order"] == list(order)][:1] or [v["message"] for v in viol][:1]
     env = {}
     actors = [Actor(sp, env=env) for sp in specs]
     for step, w in enumerate(order):
@@ -215,7 +255,7 @@ def replay_merge(rec):
 
 def baton_task(task):
     specs, ops, bound = task["specs"], task["ops"], task["bound"]
-    refs = [solo(sp, ops) for sp in specs]
+    refs = refs_for(task)
     viol = []
     stats = dict(alternating=0, outcomes=set())
 
@@ -258,11 +298,13 @@ def baton_task(task):
             if e is not None and not ctx["bad"]:
                 ctx["bad"] = (ctx["step"], i, f"body raised {type(e).__name__}: {e}")
         sw = sum(1 for x, y in zip(schedule, schedule[1:]) if x != y)
+        stats["n"] = stats.get("n", 0) + 1
         stats["alternating"] += sw > 2
         stats["outcomes"].add(repr([a.state()[1] for a in ctx["actors"]]))
         if ctx["bad"] and len(viol) < 5:
             step, j, why = ctx["bad"]
-            viol.append(dict(driver="baton", specs=specs, ops=ops, schedule=list(schedule[:step]),
+            viol.append(dict(driver="baton", specs=specs, ops=ops, schedule=list(schedule[:step]), bound=bound,
+                             root=list(task.get("root", ())), upto=stats["n"],
                              message=f"schedule {list(schedule[:step])} (switch points: operation boundaries and objective "
                                      f"entry; ops {ops}): solver {j} ({specs[j]['f']}) differs from its solo run: {why}", sig={}))
     count, complete = sched.explore_schedules(make, on_exec, bound=bound, limit=task.get("limit"),
@@ -272,7 +314,12 @@ def baton_task(task):
 
 def replay_baton(rec):
     specs, ops, schedule = rec["specs"], rec["ops"], list(rec["schedule"])
-    refs = [solo(sp, ops) for sp in specs]
+    refs = refs_for(rec)
+    if rec.get("upto") is not None:
+        # complete in-process history: every schedule the exploring process executed before this one, in order
+        out = baton_task(dict(specs=specs, ops=ops, bound=rec.get("bound"), root=rec.get("root", ()), refs=refs,
+                              limit=rec["upto"]))
+        return [v["message"] for v in out[4]][:1]
     actors = []
     resting = [True] * len(specs)
     bodies = []
@@ -359,7 +406,11 @@ def run(ctx):
             tasks += [dict(specs=sp, ops=["c", "i", "i", "S", "r"], first=first) for first in range(2)]
     merges = alt = 0
     outcomes = 0
-    for t, (n, a, o, viol) in zip(tasks, pmap(merge_task, tasks)):
+    table = fresh_solos([(sp, t["ops"]) for t in tasks for sp in t["specs"]])
+    for t in tasks:
+        t["refs"] = [table[_key(sp, t["ops"])] for sp in t["specs"]]
+    n_solo = len(table)
+    for t, (n, a, o, viol) in zip(tasks, pmap_fresh(merge_task, tasks)):
         merges += n
         alt += a
         outcomes += o
@@ -375,11 +426,15 @@ def run(ctx):
     if th:
         btasks.append(dict(specs=specs_for(1, ("quad0", "mono", "const")), ops=["c", "i", "i"], bound=None))
     import itertools
+    table = fresh_solos([(sp, t["ops"]) for t in btasks0 for sp in t["specs"]])
+    n_solo += len(table)
+    for t in btasks0:
+        t["refs"] = [table[_key(sp, t["ops"])] for sp in t["specs"]]
     btasks = [dict(t, root=list(root)) for t in btasks0 for root in itertools.product((0, 1), repeat=3)]
     scheds = 0
     balt = 0
     complete = True
-    for t, (n, comp, a, o, viol) in zip(btasks, pmap(baton_task, btasks)):
+    for t, (n, comp, a, o, viol) in zip(btasks, pmap_fresh(baton_task, btasks)):
         scheds += n
         balt += a
         outcomes += o
@@ -393,7 +448,7 @@ def run(ctx):
              "(unbounded for short bodies, preemption-bounded for 2 x 8 operations); every solver at rest and every Solution "
              "obtained earlier is compared with the solo run at the same own progress after every segment; non-trivial = "
              "interleavings in which control changed solver more than twice",
-        exhaustive=complete, operation_level_merges=merges, evaluation_point_schedules=scheds,
+        exhaustive=complete, solo_references_in_fresh_processes=n_solo, operation_level_merges=merges, evaluation_point_schedules=scheds,
         distinct_final_outcomes=outcomes,
         samples=[dict(specs=tasks[0]["specs"], ops=tasks[0]["ops"], order=[0, 1, 1, 0, 1, 0, 0, 1, 1, 0]),
                  dict(baton=btasks[0]["ops"], bound=btasks[0]["bound"])],
